@@ -122,6 +122,25 @@ def _probe_install(kinds, rec):
         Q.parse_frames = pf
 
 
+def _cover_install(rec):
+    """line coverage of tlexport/*.py for a sample of runs (evidence: which real code the simulation reached)"""
+    seen = set()
+    marker = os.sep + "tlexport" + os.sep
+
+    def local(frame, event, arg):
+        if event == "line":
+            seen.add((frame.f_code.co_filename, frame.f_lineno))
+        return local
+
+    def tracer(frame, event, arg):
+        fn = frame.f_code.co_filename
+        if marker in fn and "site-packages" not in fn:
+            return local
+        return None
+    sys.settrace(tracer)
+    rec.append(["cover", seen])
+
+
 def _preset(preset):
     """C16: randomised initial state for packet-number spaces (applied to every new QuicSession)"""
     import tlexport.quic.quic_session as Q
@@ -159,7 +178,9 @@ def _child(req, main_mod):
     probes = []
     try:
         if req.get("probes"):
-            _probe_install(req["probes"], probes)
+            _probe_install([k for k in req["probes"] if k != "cover"], probes)
+            if "cover" in req["probes"]:
+                _cover_install(probes)
         if req.get("pn_preset"):
             _preset(req["pn_preset"])
     except Exception:
@@ -193,6 +214,10 @@ def _child(req, main_mod):
             sys.stdout.flush()
             sys.stderr.flush()
         out["runs"].append(r)
+    sys.settrace(None)
+    for p in probes:
+        if p[0] == "cover":
+            p[1] = sorted("%s:%d" % (fn.split(os.sep + "tlexport" + os.sep)[-1], ln) for fn, ln in p[1])
     if probes:
         out["probes"] = probes
     with open(os.path.join(rundir, "status.json"), "w") as f:
